@@ -375,6 +375,32 @@ def run(ctx):
             or (rec.x, rec.y, rec.z) != (4, 5, 6) or tuple(rec.position) != (4, 5, 6):
         ctx.violation('attribute aliases do not read back what was set', {}, key={'kind': 'alias'})
 
+    # keyword-style aliases whose container field names differ from the parent's attribute names
+    import collections as _c
+    Pair = _c.namedtuple('Pair', ('a', 'b'))
+    Tagged = _c.namedtuple('Tagged', ('y', 'tag'))
+
+    class KwHolder(object):
+        pair = MU.multi_attribute_alias(Pair, a='left', b='right')
+        crossed = MU.multi_attribute_alias(Pair, a='b', b='a')
+        tagged = MU.multi_attribute_alias(Tagged, y='feet_y', tag='label')
+        mixed = MU.multi_attribute_alias(Pair, 'left', b='label')
+    kh = KwHolder()
+    ctx.case(('kw-alias',))
+    try:
+        kh.pair = Pair(1, 2)
+        kh.tagged = Tagged(64.5, 'spawn')
+        ok = (kh.left, kh.right) == (1, 2) and kh.pair == Pair(1, 2) and (kh.feet_y, kh.label) == (64.5, 'spawn') \
+            and kh.tagged == Tagged(64.5, 'spawn')
+        kh.crossed = Pair(7, 8)
+        ok = ok and (kh.b, kh.a) == (7, 8) and kh.crossed == Pair(7, 8)
+        why = 'left/right=%r pair=%r feet_y/label=%r crossed=%r (b, a)=%r' % (
+            (kh.left, kh.right), kh.pair, (kh.feet_y, kh.label), kh.crossed, (kh.b, kh.a))
+    except Exception as e:
+        ok, why = False, 'raised %r' % (e,)
+    if not ok:
+        ctx.violation('keyword attribute aliases do not read back what was set: %s' % why, {}, key={'kind': 'kw-alias'})
+
     class Holder(object):
         t = MU.attribute_transform('raw', lambda v: v * 2, lambda v: v // 2)
     hd = Holder()
